@@ -467,20 +467,25 @@ FROMSTRING_TEMPLATES = [
     ("var(--color0, red)", (255, 0, 0), 0, None),
     ("var(--color5, #ABCDEF)", (0xAB, 0xCD, 0xEF), 5, None),
     ("  var\t  ( --color1 ,   yellow ) ", (255, 255, 0), 1, None),
+    # colours with their own alpha channel: it multiplies the caller's alpha (shape opacity)
+    ("#F1E2D366", (0xF1, 0xE2, 0xD3), None, 0x66),
+    ("#BCD3", (0xBB, 0xCC, 0xDD), None, 0x33),
+    ("var(--color3, #00000080)", (0, 0, 0), 3, 0x80),
 ]
 
 
 def replay_fromstring(inp):
     c = Color.fromstring(inp["s"], alpha=float(inp["alpha"]))
-    if c.alpha != float(inp["alpha"]) or tuple(c[:3]) != tuple(inp["rgb"]) or c.palette_index != inp["idx"]:
+    want = float(inp["alpha"]) * (inp["own"] / 255 if inp.get("own") is not None else 1)
+    if abs(c.alpha - want) > 1e-12 or tuple(c[:3]) != tuple(inp["rgb"]) or c.palette_index != inp["idx"]:
         return {"string": inp["s"], "alpha_in": inp["alpha"], "got": repr(c)}
     return None
 
 
 def job_fromstring(jc):
     jc.encode(Color.fromstring)
-    for s, rgb, idx, _ in FROMSTRING_TEMPLATES:
-        inp = {"s": s, "rgb": list(rgb), "idx": idx, "alpha": core.SymNum(z3.Real("alpha"))}
+    for s, rgb, idx, own in FROMSTRING_TEMPLATES:
+        inp = {"s": s, "rgb": list(rgb), "idx": idx, "own": own, "alpha": core.SymNum(z3.Real("alpha"))}
 
         def body():
             return Color.fromstring(s, alpha=core.real("alpha", 0, 1))
@@ -491,7 +496,10 @@ def job_fromstring(jc):
             c = r.value
             jc.reach(r, s.strip()[:8])
             ok = tuple(c[:3]) == tuple(rgb) and c.palette_index == idx
-            jc.prove(r, z3.And(z3.BoolVal(ok), core.as_term(c.alpha) == z3.Real("alpha")),
+            from fractions import Fraction
+
+            want_alpha = z3.Real("alpha") * (z3.RealVal(Fraction(own, 255)) if own is not None else 1)
+            jc.prove(r, z3.And(z3.BoolVal(ok), core.eq_tol(c.alpha, core.SymNum(want_alpha), Fraction(1, 10**12))),
                      "fromstring: rgb/index parsed, caller's alpha (shape opacity) preserved", inp, replay_fromstring, key="C15:fromstring:alpha")
 
 
